@@ -83,6 +83,10 @@ func paramEntry(t *rapid.T, key bool) (*rc.M, *rc.M, string) {
 		{2, func() *rc.M { return &rc.M{Major: 4, Items: []*rc.M{mbytes([]byte{1})}} }, "crit=[bstr]"},
 		{3, func() *rc.M { return mtext("a/b") }, "cty=a/b"},
 		{3, func() *rc.M { return mtext("nope") }, "cty=nope"},
+		{3, func() *rc.M { return mtext("/") }, "cty=slash-only"},
+		{3, func() *rc.M { return mtext(";q=a/b") }, "cty=param-only"},
+		{16, func() *rc.M { return mtext("a/") }, "typ=empty-subtype"},
+		{16, func() *rc.M { return mtext("/b;x") }, "typ=empty-type"},
 		{3, func() *rc.M { return mtext("\ta/b") }, "cty=tab-padded"},
 		{3, func() *rc.M { return mtext("a/b\n") }, "cty=newline-tail"},
 		{16, func() *rc.M { return mtext("a/b\r\n") }, "typ=crlf-tail"},
